@@ -184,7 +184,12 @@ def dense_op(sites, ops):
 def jw_term(sites, term):
     """Dense operator of a term [(opname, i), ...] = product (left to right) of Jordan-Wigner reference operators
     c_i = (prod_{k<i} JW_k) op_i, independent of tenpy's term machinery."""
-    # kron(A, B) @ kron(C, D) = kron(A @ C, B @ D): accumulate the ordered product site by site
+    return kron_all(jw_term_local(sites, term))
+
+
+def jw_term_local(sites, term):
+    """The single-site factors of :func:`jw_term`: kron(A, B) @ kron(C, D) = kron(A @ C, B @ D), so the ordered product of
+    the reference operators is accumulated site by site."""
     local = [np.eye(s.dim, dtype=complex) for s in sites]
     for name, i in term:
         s = sites[i]
@@ -192,7 +197,7 @@ def jw_term(sites, term):
             for k in range(i):
                 local[k] = local[k] @ op_matrix(sites[k], 'JW')
         local[i] = local[i] @ op_matrix(s, name)
-    return kron_all(local)
+    return local
 
 
 def schmidt_values(vec, dims, cut):
